@@ -1,1 +1,222 @@
-(* placeholder: to be written *)
+(** C19 — Only authorised callers configure or act for others; paused means no fund moves.
+
+    Table layer: statements quantified over EVERY row of the access table (587 rows: every function
+    the Rust sources of the 16 contracts export, plus the "acting for another user" argument
+    variants), every caller role and every contract state of the row's contract (11926 cells) — the
+    domain is finite, the proofs evaluate the rule on all of it.  [C19_inventory_covered] ties the
+    table to the generated inventory Gen/Endpoints.v (563 functions).
+    Semantic layer: the guard primitives for ALL callers, the permissions / pausable modules and the
+    permissions hub for ALL histories, the pause rules of the pair and farm models (the models the
+    C01-C07 correspondence runs tie to the real contracts) for ALL states and arguments.
+    The tie of the table to the real contracts is the executed matrix (tools/sys_access.py +
+    Run/AccessRun.v). *)
+From Coq Require Import ZArith List Bool String.
+From MX Require Import Base.Prelude Gen.Params Gen.Endpoints Model.Pair Model.Farm Model.Access Proofs.AccessProofs.
+Import ListNotations.
+Open Scope Z_scope.
+
+(** ---- clause 1: configuration and admin endpoints succeed only for callers holding the required role *)
+
+(** every configuration row, every role, every state: if the call is allowed, the caller is not a
+    plain user / agent and holds what the row demands — the chain owner for #[only_owner] rows, a flag
+    of the demanded set (owner / admin / pauser; for pairs the router holds OWNER|PAUSE) otherwise *)
+Theorem C19_config_needs_role : forall r ro st,
+  In r access_table -> In ro (roles_of (row_contract r)) -> In st (states_of (row_contract r)) ->
+  c_kind (row_class r) = KConfig -> row_allowed r ro st = true ->
+  unprivileged ro = false /\
+  match c_guard (row_class r) with
+  | GOnlyOwner | GOwnerOrOpen => ro = ROwner
+  | GPerm m => intersects (perms (row_contract r) ro) m = true
+  | _ => False
+  end.
+Proof. exact config_needs_role. Qed.
+Print Assumptions C19_config_needs_role.
+
+(** contract-to-contract entry points (whitelisted contract, unstake contract, old factory, known
+    contract, energy factory) are allowed for the configured counterparty only *)
+Theorem C19_contract_entries : forall r ro st,
+  In r access_table -> In ro (roles_of (row_contract r)) -> In st (states_of (row_contract r)) ->
+  c_kind (row_class r) = KContractEntry -> row_allowed r ro st = true -> exists p, ro = RParty p.
+Proof. exact contract_entries_only_counterparties. Qed.
+Print Assumptions C19_contract_entries.
+
+(** require_caller_any_of(p) succeeds iff the caller's permission set and p share a flag — for all
+    permission values (Permissions as bit sets) *)
+Theorem C19_require_any_of : forall cp m, 0 <= cp -> 0 <= m ->
+  (require_any_of cp m = Ok tt <-> exists i, 0 <= i /\ holds cp i /\ holds m i).
+Proof. exact require_any_of_iff. Qed.
+Print Assumptions C19_require_any_of.
+
+Theorem C19_require_any_of_denied : forall cp m, 0 <= cp -> 0 <= m ->
+  (require_any_of cp m = Err EPerm <-> forall i, 0 <= i -> holds cp i -> holds m i -> False).
+Proof. exact require_any_of_denied. Qed.
+Print Assumptions C19_require_any_of_denied.
+
+(** permissions + pausable modules: an operation succeeds only for a caller holding its role ... *)
+Theorem C19_permission_ops_authorised : forall s op s', pm_step s op = Ok s' -> pm_authorised s op.
+Proof. exact pm_step_authorised. Qed.
+Print Assumptions C19_permission_ops_authorised.
+
+(** ... and along EVERY history in which no caller holds the OWNER flag or is the chain owner,
+    nobody's permissions change (no caller can give itself or anybody a role) *)
+Theorem C19_no_escalation : forall ops s,
+  (forall op, In op ops -> ~ has_flag (pm_get s (pm_caller op)) PERM_OWNER /\ pm_caller op <> pm_chain_owner s) ->
+  pm_perms (pm_run s ops) = pm_perms s.
+Proof. exact pm_no_escalation. Qed.
+Print Assumptions C19_no_escalation.
+
+(** callers holding no flag can change neither permissions nor the pause state, over every history *)
+Theorem C19_powerless_history : forall ops s,
+  (forall op, In op ops -> pm_get s (pm_caller op) = 0 /\ pm_caller op <> pm_chain_owner s) ->
+  pm_run s ops = s.
+Proof. exact pm_powerless_history. Qed.
+Print Assumptions C19_powerless_history.
+
+(** ---- clause 2: acting on behalf of another user *)
+
+(** every on-behalf row (optional original-caller argument, ...OnBehalf endpoints, external boosted
+    claims): allowed only for a whitelisted contract or the authorised agent — never for the revoked
+    or the blacklisted agent, a plain user, or an owner / admin *)
+Theorem C19_on_behalf_rows : forall r ro st,
+  In r access_table -> In ro (roles_of (row_contract r)) -> In st (states_of (row_contract r)) ->
+  c_kind (row_class r) = KOnBehalf -> row_allowed r ro st = true ->
+  ro = RParty PWhitelistedSC \/ ro = RAgentAuth.
+Proof. exact on_behalf_only_authorised. Qed.
+Print Assumptions C19_on_behalf_rows.
+
+(** for ALL callers: acting for a user succeeds only for a whitelisted contract caller, or a caller
+    the user listed in the hub and the hub has not blacklisted *)
+Theorem C19_on_behalf_rule : forall p f,
+  act_on_behalf p f = Ok tt ->
+  cf_party f PWhitelistedSC = true \/ (cf_hub_listed f = true /\ cf_hub_black f = false).
+Proof. exact act_on_behalf_sound. Qed.
+Print Assumptions C19_on_behalf_rule.
+
+Theorem C19_on_behalf_is_hub_view : forall h wl u c,
+  act_on_behalf ViaOnBehalfEndpoint (hub_facts h wl u c) = Ok tt <-> is_whitelisted h u c = true.
+Proof. exact on_behalf_hub_rule. Qed.
+Print Assumptions C19_on_behalf_is_hub_view.
+
+(** the authorisation is the user's own and explicit: over EVERY history of the hub, an agent is on
+    a user's list only if it was there before or that user called whitelist(agent) itself *)
+Theorem C19_only_user_authorises : forall ops h u a,
+  pmem (u, a) (h_wl (hub_run h ops)) = true ->
+  pmem (u, a) (h_wl h) = true \/ In (HWhitelist u a) ops.
+Proof. exact hub_only_user_authorises. Qed.
+Print Assumptions C19_only_user_authorises.
+
+(** a revoked agent stays unauthorised until the user whitelists it again *)
+Theorem C19_revoked_agent : forall h h' u a ops,
+  hub_step h (HRemoveWhitelist u a) = Ok h' -> ~ In (HWhitelist u a) ops ->
+  forall user_check, user_check = u -> is_whitelisted (hub_run h' ops) user_check a = false.
+Proof. exact hub_revoked. Qed.
+Print Assumptions C19_revoked_agent.
+
+(** a blacklisted agent is authorised for nobody until the hub owner removes it from the blacklist *)
+Theorem C19_blacklisted_agent : forall ops h a,
+  zmem a (h_black h) = true -> ~ In (HRemoveBlacklist (h_owner h) a) ops ->
+  forall u, is_whitelisted (hub_run h ops) u a = false.
+Proof. exact hub_blacklisted. Qed.
+Print Assumptions C19_blacklisted_agent.
+
+(** "rewards claimed on behalf go to the position owner" is a statement about token transfers of
+    the farm contracts; it is decided on the real contracts by the monitor of the executed matrix
+    (claimRewardsOnBehalf / claimDualYieldOnBehalf: reward balance delta of owner vs. caller), and
+    for the farm model by C05/C07's ledger (rewards are paid to the [c] of the operation). *)
+
+(** ---- clause 3: paused or inactive means no user operation that moves funds *)
+
+(** every fund-moving row of pair / farm / farm-with-locked-rewards / farm-staking / energy-factory,
+    every role, Inactive or Paused: not allowed — except the pair's bootstrap deposit by the
+    configured adder in the never-activated pair *)
+Theorem C19_paused_no_fund_moves : forall r ro st,
+  In r access_table -> In ro (roles_of (row_contract r)) -> In st (states_of (row_contract r)) ->
+  pausable_contract (row_contract r) = true -> moves_user_funds r = true ->
+  st = Inactive \/ st = Paused -> row_allowed r ro st = true ->
+  is_bootstrap r = true /\ st = Inactive /\ ro = RParty PAdder.
+Proof. exact paused_no_fund_moves. Qed.
+Print Assumptions C19_paused_no_fund_moves.
+
+(** pair model, all states and arguments: in the Inactive state the only user operation that can
+    succeed is the bootstrap deposit into an empty pool ... *)
+Theorem C19_pair_inactive : forall p op r,
+  p_state p = ST_Inactive -> pair_user_fund_op op = true -> Model.Pair.step p op = Ok r ->
+  exists c a1 a2, op = AddInitial c a1 a2 /\ p_S p = 0.
+Proof. exact pair_inactive_no_user_funds. Qed.
+Print Assumptions C19_pair_inactive.
+
+(** ... which needs an empty pool, an inactive pair and the configured adder: never a way around a pause *)
+Theorem C19_bootstrap_only_empty : forall p c a1 a2 r,
+  ep_add_initial p c a1 a2 = Ok r ->
+  p_S p = 0 /\ Model.Pair.is_state_active (p_state p) = false /\
+  match p_adder p with Some ad => c = ad | None => True end.
+Proof. exact pair_bootstrap_needs_empty_pool. Qed.
+Print Assumptions C19_bootstrap_only_empty.
+
+(** farm model (shared base functions of farm / farm-with-locked-rewards / farm-staking), all states
+    and arguments: not Active => enter / claim / compound / exit / merge / claimBoosted fail *)
+Theorem C19_farm_not_active : forall f op,
+  f_state f <> ST_Active -> farm_user_op op = true -> is_ok (fstep f op) = false.
+Proof. exact farm_not_active_no_user_op. Qed.
+Print Assumptions C19_farm_not_active.
+
+(** ---- clause 4: a partially active pair accepts liquidity but no swaps *)
+Theorem C19_partial_active : forall r ro,
+  In r access_table -> In ro (roles_of CPair) -> row_contract r = CPair ->
+  ((row_endpoint r = "addLiquidity" \/ row_endpoint r = "removeLiquidity")%string ->
+     row_allowed r ro PartialActive = true) /\
+  ((row_endpoint r = "swapTokensFixedInput" \/ row_endpoint r = "swapTokensFixedOutput"
+    \/ row_endpoint r = "swapNoFeeAndForward")%string ->
+     row_allowed r ro PartialActive = false).
+Proof. exact partial_active_liquidity_not_swaps. Qed.
+Print Assumptions C19_partial_active.
+
+(** pair model: no swap of any kind unless Active, for all states and arguments *)
+Theorem C19_pair_no_swaps_unless_active : forall p op,
+  p_state p <> ST_Active -> pair_swap_op op = true -> is_ok (Model.Pair.step p op) = false.
+Proof. exact pair_partial_active_no_swaps. Qed.
+Print Assumptions C19_pair_no_swaps_unless_active.
+
+(** ---- the table covers what exists *)
+Theorem C19_inventory_covered : forall e, In e inventory -> exists cl, inv_row e = Some cl.
+Proof. exact inventory_covered. Qed.
+Print Assumptions C19_inventory_covered.
+
+(** #[only_owner] in the source <-> GOnlyOwner in the table; init/upgrade <-> Lifecycle; views not payable *)
+Theorem C19_attributes_agree : forall e, In e inventory -> attr_agrees e = true.
+Proof. exact attributes_agree. Qed.
+Print Assumptions C19_attributes_agree.
+
+Theorem C19_lifecycle_never_called : forall r ro st,
+  In r access_table -> In ro (roles_of (row_contract r)) -> In st (states_of (row_contract r)) ->
+  c_kind (row_class r) = KLifecycle -> row_allowed r ro st = false.
+Proof. exact lifecycle_never_called. Qed.
+Print Assumptions C19_lifecycle_never_called.
+
+(** the verdict of a cell is the rule of the primitives: guard on the caller's facts and state requirement *)
+Theorem C19_allowed_iff : forall cl c ro st,
+  allowed cl c ro st = true <->
+  guard_ok pair_creation_open (c_guard cl) (facts_of c ro) = true /\ state_ok (c_sreq cl) st = true.
+Proof. exact allowed_iff. Qed.
+Print Assumptions C19_allowed_iff.
+
+(** Non-vacuity: the quantifier domains are the stated sizes; a partially active pool (reached by
+    the adder's bootstrap) accepts a deposit and a withdrawal and refuses a swap, and the same pool
+    paused refuses all three; an authorised agent passes the hub rule, the revoked and the
+    blacklisted one do not (a hub history: whitelist x3, removeWhitelist, blacklist). *)
+Example C19_nonvacuous :
+  table_rows = 587 /\ inventory_rows = 563 /\ table_cells = 11926 /\
+  (let p := Model.Pair.run (init_pair 300 50 (Some 7)) [AddInitial 7 2000000 6000000] in
+   p_state p = ST_PartialActive /\
+   is_ok (Model.Pair.step p (Add 1 1000 3000 1 1)) = true /\
+   is_ok (Model.Pair.step p (Remove 7 1000 1 1)) = true /\
+   is_ok (Model.Pair.step p (SwapIn 1 1 1000 2 1)) = false /\
+   (let q := Model.Pair.run p [SetState OWNER 1; SetState OWNER 0] in
+    p_state q = ST_Inactive /\ 0 < p_S q /\
+    is_ok (Model.Pair.step q (Add 1 1000 3000 1 1)) = false /\
+    is_ok (Model.Pair.step q (Remove 7 1000 1 1)) = false /\
+    is_ok (Model.Pair.step q (AddInitial 7 2000000 6000000)) = false)) /\
+  (let h := hub_run (mkHub [] [] 100) [HWhitelist 1 4; HWhitelist 1 5; HWhitelist 1 6; HRemoveWhitelist 1 5; HBlacklist 100 6] in
+   is_whitelisted h 1 4 = true /\ is_whitelisted h 1 5 = false /\ is_whitelisted h 1 6 = false /\
+   is_whitelisted h 2 4 = false).
+Proof. vm_compute. repeat split. Qed.
